@@ -1038,6 +1038,25 @@ def fam_dbgf(tier, seed):
         cases.append(bitfield_case("dw_%04d" % n, "dbgf", base, [uint_field("r#type", [(0, 3)]), bool_field("r#match", 4), sint_field("r#loop", [(8, 15)]), uint_field("plain", [(5, 7)], access="r")],
                                    debug=True, name="Keywords", default=default_spec(0x1234)))
         n += 1
+    cases.append(bitfield_case("dw_%04d" % n, "dbgf", 32, [uint_field("r#ref", [(0, 3)]), bool_field("r#return", 4), uint_field("r#r", [(5, 6)]), uint_field("rr", [(7, 8)]), uint_field("r#use", [(9, 12)]),
+                                                          uint_field("r#fn", [(13, 14)]), uint_field("raw", [(15, 16)], access="r")], debug=True, name="Keywords2"))
+    n += 1
+    # aliases: fields with exactly the same bits and type, fields hidden from the documentation, attribute-style docs
+    al = [uint_field("status", [(0, 7)], access="r"), uint_field("command", [(0, 7)]), uint_field("data", [(8, 15)]), uint_field("data_again", [(8, 15)], access="r"),
+          uint_field("mix", [(16, 19), (24, 27)]), uint_field("mix2", [(16, 19), (24, 27)], access="r"), bool_field("f", 31), bool_field("g", 31, access="r")]
+    cases.append(bitfield_case("da_%04d" % n, "dbgf", 32, al, debug=True, name="Alias"))
+    n += 1
+    hid = [uint_field("upper", [(8, 15)]), dict(uint_field("scratch", [(4, 7)]), extra_attrs=["#[doc(hidden)]"]), dict(uint_field("lower", [(0, 3)]), doc="documented", doc_form="attr"),
+           dict(bool_field("flag", 16), doc="documented by concat", doc_form="concat"), dict(uint_field("both", [(17, 18)]), doc="visible", extra_attrs=["#[doc(hidden)]", "#[doc(alias = \"two\")]"])]
+    cases.append(bitfield_case("dh_%04d" % n, "dbgf", 24, hid, debug=True, name="Hid"))
+    n += 1
+    # more fields than any fixed-size table or chunk would hold
+    for (base, nf) in ((64, 35), (128, 70), (64, 64)):
+        fs = [bool_field("b%d" % k, k, access=("rw", "r")[k % 2]) for k in range(nf - 3)] + [uint_field("n", [(nf - 3, nf - 2)]), sint_field("s", [(base - 8, base - 1)]) if nf + 8 <= base else bool_field("z", nf - 1),
+                                                                                               bool_field("last", base - 9 if nf + 8 <= base else base - 1)]
+        fs = [f for k, f in enumerate(fs) if f["name"] != "z" or True]
+        cases.append(bitfield_case("dm_%04d" % n, "dbgf", base, fs, debug=True, name="Many", default=default_spec(0)))
+        n += 1
     for _ in range(30 if tier == "quick" else 300):
         base = rng.choice([8, 16, 32, 64, 128] * 2 + all_arb_widths())
         cases.append(random_register("dr_%04d" % n, base, rng, want_debug=True, family="dbgf"))
